@@ -50,3 +50,11 @@ Print Assumptions C03_family_bounded_by_norm1.
 Corollary C03_family_admissible c x : -1 <= x <= 1 -> sumR (map Rabs c) <= 9 / 10 -> Rabs (cheb_series c x) <= 9 / 10.
 Proof. intros Hx Hc. eapply Rle_trans; [exact (cheb_series_norm1 c x Hx) | exact Hc]. Qed.
 Print Assumptions C03_family_admissible.
+
+(* ... and for every member (every degree, either parity) the polynomial 1 - F F~ whose roots the completion splits stays
+   >= 0.19 in modulus on the whole unit circle: no member puts a root on or near the circle in exact arithmetic *)
+Theorem C03_family_no_unit_roots odd c theta : (Qnorm1 c <= 9 # 10)%Q ->
+  let F := lpQ2C (cheb_to_laurent odd c) in
+  19 / 100 <= Cmod (Cminus (RtoC 1) (Cmult (evx CR (cis theta) (cis (- theta)) F) (evx CR (cis (- theta)) (cis theta) F))).
+Proof. exact (family_no_unit_roots odd c theta). Qed.
+Print Assumptions C03_family_no_unit_roots.
